@@ -185,8 +185,10 @@ int main(int argc, char **argv) {
     if (vf_mine(caseno)) concurrent_purity(caseno);
     caseno++;
     /* "every length": one buffer longer than 4 GiB (lengths that do not fit 32 bits); thorough tier only, mostly untouched zero pages */
-    if (vf_arg_long("huge", 0) && vf_mine(caseno)) {
-        size_t len = ((size_t)1 << 32) + 5; vf_case_begin(caseno, "huge buffer of %zu bytes (MD5)", len);
+    long hugemode = vf_arg_long("huge", 0);        /* 1: everything below (thorough); 2: only the first huge file range (quick) */
+    if (hugemode && vf_mine(caseno)) {
+        size_t len = ((size_t)1 << 32) + 5;
+        if (hugemode == 2) goto file_part; vf_case_begin(caseno, "huge buffer of %zu bytes (MD5)", len);
         unsigned char *m = mmap(NULL, len + 4096, PROT_READ | PROT_WRITE, MAP_PRIVATE | MAP_ANONYMOUS | MAP_NORESERVE, -1, 0);
         if (m == MAP_FAILED) vf_count("huge_buffer_unavailable", 1);
         else { m[0] = 'q'; m[4] = 'L'; m[len - 1] = 'z'; m[((size_t)1 << 32) - 1] = 7;
@@ -203,6 +205,23 @@ int main(int argc, char **argv) {
             if (!ok128 || memcmp(g128, w128, 16)) vf_viol("C18", "wrong-hash:qhashmurmur3_128:huge", "qhashmurmur3_128 of a %zu-byte buffer differs from the reference", l2);
             vf_count("evaluations", 2); vf_count("huge_buffers", 2);
             munmap(m, len + 4096); }
+        file_part:
+        /* ... and file ranges of 512 MiB and more (the bit counter of the digest wraps its low word while the file is fed in 32 KiB pieces): a sparse file */
+        { char path[160]; snprintf(path, sizeof path, "h_hash-huge-%d-%d.bin", VF.shard, (int)getpid()); size_t fl = ((size_t)512 << 20) + 4133;
+          int fd = open(path, O_RDWR | O_CREAT | O_TRUNC, 0600);
+          if (fd >= 0 && ftruncate(fd, (off_t)fl) == 0 && pwrite(fd, "head", 4, 0) == 4 && pwrite(fd, "tail", 4, (off_t)fl - 4) == 4 && pwrite(fd, "mid", 3, (off_t)4133 + 77) == 3) {
+              unsigned char *fm = mmap(NULL, fl, PROT_READ, MAP_PRIVATE, fd, 0);
+              if (fm != MAP_FAILED) {
+                  static const struct { off_t off; ssize_t nb; } RG[] = {{0, 0}, {4133, 0}, {0, (ssize_t)512 << 20}, {100, ((ssize_t)512 << 20) - 1}, {5, ((ssize_t)512 << 20) + 1}};
+                  for (int i = 0; i < (hugemode == 2 ? 1 : 5); i++) { size_t eff = RG[i].nb ? (size_t)RG[i].nb : fl - (size_t)RG[i].off; unsigned char got[16], want[16]; memset(got, 0, 16);
+                      vf_case_begin(caseno, "md5 of a huge file range: size=%zu offset=%ld nbytes=%zd", fl, (long)RG[i].off, RG[i].nb);
+                      vf_cpu_arm("qhashmd5_file", 600000); bool ok = qhashmd5_file(path, RG[i].off, RG[i].nb, got); vf_cpu_disarm(); ref_md5(fm + RG[i].off, eff, want);
+                      if (!ok || memcmp(got, want, 16)) vf_viol("C18", "wrong-hash:qhashmd5_file:huge", "digest of range (%ld,%zd) of a %zu-byte file differs from the reference", (long)RG[i].off, RG[i].nb, fl);
+                      vf_count("evaluations", 1); vf_count("huge_file_ranges", 1); }
+                  munmap(fm, fl); } }
+          else vf_count("huge_file_unavailable", 1);
+          if (fd >= 0) close(fd);
+          unlink(path); }
     }
     return vf_finish() ? 1 : 0;
 }
